@@ -36,6 +36,15 @@ written in plain Python (``math`` only, no biogeme import).
         x every reference (and None), alone and next to a plain second variable on either side (thorough:
         both merged): every value of the reference category evaluates to the reference value alone, the
         repeated non-reference name stands for ONE shift parameter.
+        Ways of supplying the segmentations: the three entry points - class Segmentation, function
+        segmented_beta() and its deprecated alias segment_parameter() - declare Iterable[DiscreteSegmentationTuple].
+        Every basic structure (none / one / two variables, every reference; thorough: three variables, merged
+        levels) x every kind of iterable (list, tuple, generator, list iterator, filter, map, itertools.chain, dict
+        values view, deque, a one-shot Iterable class, a re-iterable non-Sized class, numpy object array) x every entry point x call histories (class: the orders
+        b,c / c,b / b,b,c / c,b,c,b of segmented_beta() and segmented_code() on ONE object; function and alias:
+        once, or twice with the same re-iterable container object) x arguments positional / keyword / default
+        prefix, parameter configurations rotating.  Same oracle: value = reference + shift on every row,
+        parameter set, executed generated code.
  (nest) NestsForNestedLogit.correlation: every subset left alone x every set partition of the
         rest for 2..4 (thorough: 5) alternatives x two labelings x nest-parameter kinds (number,
         free / fixed Beta, expression) x ``parameters=`` (none, all, partial) x mu x names (none,
@@ -917,7 +926,98 @@ def seg_configs(a, tier):
                 continue
             cfgs.append(dict(struct=st, beta=list(beta), varform=['name', 'object'][(si + bi) % 2],
                              api=['class', 'function'][(si // 2 + bi) % 2], prefix=['segmented', 'my_seg'][(si // 3 + bi) % 2]))
+    # ---- ways of SUPPLYING the segmentations (appended: everything above keeps its configuration).  The three entry
+    # points (class Segmentation, function segmented_beta, its deprecated alias segment_parameter) declare
+    # Iterable[DiscreteSegmentationTuple]: every kind of iterable of SEG_CONTAINERS x every entry point x every
+    # call history of SEG_HISTORIES x the basic structures (none / one / two variables, every reference).
+    basic = [[]] + [[s] for s in g_plain]
+    if tier == 'quick':
+        basic += [[s, t] for s in g_plain for t in i_plain if len(t['mapping']) == 2]
+    else:
+        basic += [[s] for s in i_plain] + [[s, t] for s in g_plain for t in i_plain]
+        basic += [[s] for s in merged(0, a['seg_vals'], 2)]
+        third = [dict(var='age', mapping=[[41, 'young'], [42, 'old']], ref=r) for r in (None, 'old')]
+        basic += [[s, t, u] for s in g_plain for t in i_plain for u in third
+                  if len(s['mapping']) == 2 and len(t['mapping']) == 2]
+    n = 0
+    for si, st in enumerate(basic):
+        for ci, cont in enumerate(SEG_CONTAINERS):
+            for api in ('class', 'function', 'alias'):
+                for hist in SEG_HISTORIES[api]:
+                    if hist == 'twice' and cont in SEG_ONE_SHOT:
+                        continue  # a consumed one-shot iterable is legitimately empty the second time
+                    betas = a['seg_beta'] if tier == 'thorough' else [a['seg_beta'][n % len(a['seg_beta'])]]
+                    for bi, beta in enumerate(betas):
+                        if tier == 'thorough' and bi not in (n % 4, (n + 1) % 4):
+                            continue
+                        cfgs.append(dict(struct=st, beta=list(beta), varform=['name', 'object'][(n + bi) % 2], api=api,
+                                         prefix=['segmented', 'my_seg'][(n // 2 + bi) % 2], container=cont, history=hist,
+                                         argform=['keyword', 'positional', 'default-prefix'][(n + ci + bi) % 3]))
+                    n += 1
     return cfgs
+
+
+# how the segmentation tuples are handed over (all are Iterable[DiscreteSegmentationTuple], the declared type)
+SEG_CONTAINERS = ['list', 'tuple', 'generator', 'iterator', 'filter', 'map', 'chain', 'dict_values', 'deque', 'oneshot',
+                  'reiterable', 'ndarray']
+# can be traversed once only
+SEG_ONE_SHOT = {'generator', 'iterator', 'filter', 'map', 'chain', 'oneshot'}
+# call histories.  class: order and repetition of the two methods on ONE Segmentation object (b = segmented_beta(),
+# c = segmented_code(); the last result of each is the one compared).  function / alias: called once, or twice with
+# the same (re-iterable) container object - the second result is the one compared.
+SEG_HISTORIES = {'class': ['bc', 'cb', 'bbc', 'cbcb'], 'function': ['once', 'twice'], 'alias': ['once', 'twice']}
+
+
+def seg_supplier(container, tuples):
+    """Returns a function producing the iterable handed to the library.  One-shot kinds are made afresh for every call
+    (the library is free to traverse what it receives once); the others are ONE object, reused for all calls."""
+    import collections
+
+    class OneShot:  # an Iterable that is its own iterator: no __len__, no __getitem__, exhausted after one pass
+        def __init__(self, items):
+            self._it = iter(list(items))
+
+        def __iter__(self):
+            return self
+
+        def __next__(self):
+            return next(self._it)
+
+    class ReIterable:  # an Iterable that is neither Sized nor a Sequence; every iter() starts afresh
+        def __init__(self, items):
+            self._items = list(items)
+
+        def __iter__(self):
+            return iter(list(self._items))
+
+    fresh = {
+        'generator': lambda: (t for t in tuples),
+        'iterator': lambda: iter(list(tuples)),
+        'filter': lambda: filter(lambda t: t is not None, list(tuples)),
+        'map': lambda: map(lambda t: t, list(tuples)),
+        'chain': lambda: itertools.chain(tuples[:1], tuples[1:]),
+        'oneshot': lambda: OneShot(tuples),
+    }
+    if container in fresh:
+        return fresh[container]
+    if container == 'list':
+        obj = tuples
+    elif container == 'tuple':
+        obj = tuple(tuples)
+    elif container == 'dict_values':
+        obj = {f'k{i}': t for i, t in enumerate(tuples)}.values()
+    elif container == 'deque':
+        obj = collections.deque(tuples)
+    elif container == 'reiterable':
+        obj = ReIterable(tuples)
+    elif container == 'ndarray':
+        import numpy as np
+        obj = np.empty(len(tuples), dtype=object)
+        for i, t in enumerate(tuples):
+            obj[i] = t
+    else:
+        raise ValueError(container)
+    return lambda: obj
 
 
 def check_seg(cfg, rec: Rec):
@@ -940,11 +1040,44 @@ def check_seg(cfg, rec: Rec):
         tuples.append(seg.DiscreteSegmentationTuple(variable=v, mapping=mapping, reference=s['ref']))
     refs = [s['ref'] if s['ref'] is not None else s['mapping'][0][1] for s in struct]
 
+    container = cfg.get('container', 'list')
+    if 'container' in cfg:
+        # the way of supplying the segmentations is part of the finding key (new configurations only)
+        tag += ',tuples-as=' + ('one-shot-iterable' if container in SEG_ONE_SHOT else 're-iterable-container')
+        tag += ',entry=' + {'class': 'Segmentation', 'function': 'segmented_beta', 'alias': 'segment_parameter'}[cfg['api']]
     try:
         prefix = cfg.get('prefix', 'segmented')
-        S = seg.Segmentation(beta, tuples, prefix=prefix)
-        expr = S.segmented_beta() if cfg['api'] == 'class' else seg.segmented_beta(beta, tuples, prefix=prefix)
-        code = S.segmented_code()
+        if 'container' not in cfg:
+            S = seg.Segmentation(beta, tuples, prefix=prefix)
+            expr = S.segmented_beta() if cfg['api'] == 'class' else seg.segmented_beta(beta, tuples, prefix=prefix)
+            code = S.segmented_code()
+        else:
+            import warnings
+            supply = seg_supplier(container, tuples)
+            argform = cfg.get('argform', 'keyword')
+            if argform == 'default-prefix':
+                prefix = 'segmented'
+
+            def call(f):
+                if argform == 'positional':
+                    return f(beta, supply(), prefix)
+                if argform == 'default-prefix':
+                    return f(beta, supply())
+                return f(beta=beta, segmentation_tuples=supply(), prefix=prefix)
+
+            S = call(seg.Segmentation)
+            expr = code = None
+            for step in (cfg['history'] if cfg['api'] == 'class' else 'c'):
+                if step == 'b':
+                    expr = S.segmented_beta()
+                else:
+                    code = S.segmented_code()
+            if cfg['api'] != 'class':
+                f = seg.segmented_beta if cfg['api'] == 'function' else seg.segment_parameter
+                with warnings.catch_warnings():
+                    warnings.simplefilter('ignore')  # the alias announces its deprecation
+                    for _ in range(2 if cfg['history'] == 'twice' else 1):
+                        expr = call(f)
     except Exception as e:  # noqa
         rec.case(('seg', 'raised', str(cfg)), exc_name(e), outcome='seg:raised')
         rec.violation(f'C17|segmentation|raises={exc_name(e)},{tag}', f'segmentation {cfg}: {exc_name(e)}: {e}', case_of(),
@@ -966,7 +1099,8 @@ def check_seg(cfg, rec: Rec):
         return {k: (float(b.initValue), b.lb, b.ub, b.status) for k, b in e.dict_of_elementary_expression(T.BETA).items()}
 
     got = params_of(expr)
-    rec.case(('seg-params', str(cfg)), sorted(got.items(), key=repr), outcome='seg:params')
+    rec.case(('seg-params', str(cfg)), sorted(got.items(), key=repr),
+             outcome='seg:params' + (f':tuples-as={container}' if 'container' in cfg else ''))
     if got != want:
         diff = 'names' if set(got) != set(want) else 'bounds/values/status'
         rec.violation(f'C17|segmentation|parameter-set,{diff},{tag}',
